@@ -192,6 +192,15 @@ pub fn convert_output(o: &QueryOutput) -> QOut {
     }
 }
 
+/// The panic a hang is attributed to: the first one that killed a thread, not counting
+/// `PoisonError` unwraps (consequences of an earlier panic that held the lock) and unwraps of a
+/// `Canceled` query error (the consequence of a panic inside that query's task);
+/// failing that the first panic that is not such a consequence; failing that the first.
+pub fn root_cause(panics: &[rt::core::PanicRec]) -> Option<&rt::core::PanicRec> {
+    let consequence = |p: &rt::core::PanicRec| p.message.contains("PoisonError") || p.message.trim_end().ends_with("value: Canceled");
+    panics.iter().find(|p| !p.contained && !consequence(p)).or_else(|| panics.iter().find(|p| !consequence(p))).or(panics.first())
+}
+
 pub fn panic_message(p: &Box<dyn std::any::Any + Send>) -> String {
     let s = if let Some(s) = p.downcast_ref::<&str>() {
         s.to_string()
